@@ -286,7 +286,7 @@ def gen_input(rng):
     d = {}
     for c in rng.sample(KEYS, rng.choice([1, 2, 3])):
         d[c] = {"protocol": ["https", "http", "foo"], "hostname": ["example.com", "a.b", "EXAMPLE"], "pathname": ["/foo", "/foo/bar", "/", "/FOO"],
-                "search": ["q=1", "?q=1", ""], "hash": ["top", "#top"], "username": ["user"], "password": ["pw"], "port": ["80", "8080", ""]}[c]
+                "search": ["q=1", "?q=1", "", "??x", "??", "?", "?a b", "x?"], "hash": ["top", "#top", "##x", "##", "#", "#a b"], "username": ["user"], "password": ["pw"], "port": ["80", "8080", ""]}[c]
         d[c] = rng.choice(d[c])
     if rng.random() < 0.2:
         d["baseURL"] = "https://example.com/a/b?q#f"
